@@ -41,8 +41,12 @@ type ctx struct {
 	free   []string
 	seen   map[string]bool
 	usesSR bool
+	usesD  bool
+	datum  bool // the enclosing function is a method of *datum (receiver `this`)
 	ok     bool
 }
+
+var datumFields = map[string]string{"a": "a", "b": "b", "es": "es", "ep2": "ep2"}
 
 func (c *ctx) v(name string) string {
 	n := "v_" + name
@@ -75,6 +79,14 @@ func (c *ctx) expr(e ast.Expr) string {
 		return c.v(t.Name)
 	case *ast.SelectorExpr:
 		if x, ok := t.X.(*ast.Ident); ok {
+			if x.Name == "this" && c.datum {
+				if f, ok := datumFields[t.Sel.Name]; ok {
+					c.usesD = true
+					return "d." + f
+				}
+				c.ok = false
+				return "?"
+			}
 			if x.Name == "this" {
 				if f, ok := fields[t.Sel.Name]; ok {
 					c.usesSR = true
@@ -83,6 +95,16 @@ func (c *ctx) expr(e ast.Expr) string {
 			}
 			if x.Name == "math" && t.Sel.Name == "Pi" {
 				return "RTrans.pi"
+			}
+		}
+	case *ast.IndexExpr:
+		// this.datum_params[i] of a *datum method
+		if sel, ok := t.X.(*ast.SelectorExpr); ok && c.datum && sel.Sel.Name == "datum_params" {
+			if x, ok := sel.X.(*ast.Ident); ok && x.Name == "this" {
+				if lit, ok := t.Index.(*ast.BasicLit); ok && lit.Kind == token.INT && len(lit.Value) == 1 && lit.Value[0] <= '6' {
+					c.usesD = true
+					return "d.p" + lit.Value
+				}
 			}
 		}
 	case *ast.UnaryExpr:
@@ -128,10 +150,11 @@ type walker struct {
 	file  string
 	count map[string]int
 	defs  []def
+	datum bool
 }
 
 func (w *walker) emit(where, lhs string, rhs ast.Expr, pos token.Pos, srcText string) {
-	c := &ctx{seen: map[string]bool{}, ok: true}
+	c := &ctx{seen: map[string]bool{}, ok: true, datum: w.datum}
 	body := c.expr(rhs)
 	if !c.ok {
 		return
@@ -142,6 +165,9 @@ func (w *walker) emit(where, lhs string, rhs ast.Expr, pos token.Pos, srcText st
 	params := ""
 	if c.usesSR {
 		params += " (s : SR α)"
+	}
+	if c.usesD {
+		params += " (d : Datum α)"
 	}
 	if len(c.free) > 0 {
 		params += " (" + strings.Join(c.free, " ") + " : α)"
@@ -197,12 +223,31 @@ func (w *walker) stmts(where string, list []ast.Stmt, src []byte) {
 				}
 				w.emit(where, lhs, rhs, t.Pos(), text(w.fset, src, t))
 			}
+		case *ast.ReturnStmt:
+			// `return expr[, …]` of a plain function (common.go, datum.go): every translatable result
+			if where != "forward" && where != "inverse" {
+				for i, r := range t.Results {
+					if id, ok := r.(*ast.Ident); ok && (id.Name == "nil" || id.Name == "true" || id.Name == "false") {
+						continue
+					}
+					lhs := "ret"
+					if len(t.Results) > 1 {
+						lhs = fmt.Sprintf("ret%d", i)
+					}
+					w.emit(where, lhs, r, t.Pos(), text(w.fset, src, t))
+				}
+			}
 		case *ast.DeclStmt:
-			if gd, ok := t.Decl.(*ast.GenDecl); ok && gd.Tok == token.VAR {
+			if gd, ok := t.Decl.(*ast.GenDecl); ok && (gd.Tok == token.VAR || gd.Tok == token.CONST) {
 				for _, sp := range gd.Specs {
 					vs := sp.(*ast.ValueSpec)
 					if len(vs.Names) == 1 && len(vs.Values) == 1 {
-						w.emit(where, vs.Names[0].Name, vs.Values[0], vs.Pos(), text(w.fset, src, vs))
+						lhs := vs.Names[0].Name
+						if gd.Tok == token.CONST {
+							// function-local constants (krovak.go S45, S90, Uq, S0; datum.go genau …)
+							lhs = "const" + lhs
+						}
+						w.emit(where, lhs, vs.Values[0], vs.Pos(), text(w.fset, src, vs))
 					}
 				}
 			}
@@ -227,9 +272,9 @@ func main() {
 	out := flag.String("out", "", "")
 	flag.Parse()
 	var b strings.Builder
-	b.WriteString("/- GENERATED by harness/cmd/c08/extract from /repo/proj/{merc,lcc,aea,eqdc,tmerc,krovak}.go.\n   Do not edit: rewritten from the current source on every check run (tie T1). -/\nimport GeomV.C08.ProjCommon\nset_option linter.unusedVariables false\nnamespace GeomV.C08.Gen\nopen GeomV.C08\n\n")
+	b.WriteString("/- GENERATED by harness/cmd/c08/extract from /repo/proj/{common,datum,merc,lcc,aea,eqdc,tmerc,utm,krovak}.go.\n   Do not edit: rewritten from the current source on every check run (tie T1). -/\nimport GeomV.C08.ProjCommon\nset_option linter.unusedVariables false\nnamespace GeomV.C08.Gen\nopen GeomV.C08\n\n")
 	total := 0
-	for _, f := range []string{"merc.go", "lcc.go", "aea.go", "eqdc.go", "tmerc.go", "krovak.go"} {
+	for _, f := range []string{"common.go", "datum.go", "merc.go", "lcc.go", "aea.go", "eqdc.go", "tmerc.go", "utm.go", "krovak.go"} {
 		path := filepath.Join(*repo, "proj", f)
 		src, err := os.ReadFile(path)
 		if err != nil {
@@ -245,14 +290,30 @@ func main() {
 		w := &walker{fset: fset, file: f, count: map[string]int{}}
 		var names []string
 		decls := map[string]*ast.FuncDecl{}
+		datumMethod := map[string]bool{}
 		for _, d := range af.Decls {
-			if fd, ok := d.(*ast.FuncDecl); ok && fd.Body != nil && fd.Recv == nil && fd.Name.Name != "init" {
-				names = append(names, fd.Name.Name)
-				decls[fd.Name.Name] = fd
+			fd, ok := d.(*ast.FuncDecl)
+			if !ok || fd.Body == nil || fd.Name.Name == "init" {
+				continue
 			}
+			isDatumMethod := false
+			if fd.Recv != nil {
+				// methods of *datum with receiver `this` (datum.go): geodetic<->geocentric, 3-/7-parameter shifts
+				if f != "datum.go" || len(fd.Recv.List) != 1 || len(fd.Recv.List[0].Names) != 1 || fd.Recv.List[0].Names[0].Name != "this" {
+					continue
+				}
+				if !strings.HasPrefix(fd.Name.Name, "geo") || strings.HasSuffix(fd.Name.Name, "noniter") {
+					continue
+				}
+				isDatumMethod = true
+			}
+			names = append(names, fd.Name.Name)
+			decls[fd.Name.Name] = fd
+			datumMethod[fd.Name.Name] = isDatumMethod
 		}
 		sort.Strings(names)
 		for _, n := range names {
+			w.datum = datumMethod[n]
 			w.stmts(n, decls[n].Body.List, src)
 		}
 		for _, d := range w.defs {
